@@ -252,6 +252,374 @@ def search_programs(ctx: Ctx, pl: cxx.Pipeline) -> SearchResult:
 
 
 # ---------------------------------------------------------------------------------------------
+# correspondence stream `emit`: real Py2Cpp on operator expressions vs Tranp.Emit (driver family `emit`)
+
+PARAMS = 'a: int, b: int, c: int, p: bool, q: bool, x: float, y: float, xs: list[int], d: dict[int, int]'
+T_INT, T_BOOL, T_FLOAT = 'int', 'bool', 'float'
+# (python token, level index in data/grammar.lark's ladder, operand type, result type)
+BIN = [('or', 0, T_BOOL, T_BOOL), ('and', 1, T_BOOL, T_BOOL),
+	('<', 3, T_INT, T_BOOL), ('>', 3, T_INT, T_BOOL), ('==', 3, T_INT, T_BOOL), ('>=', 3, T_INT, T_BOOL), ('<=', 3, T_INT, T_BOOL), ('!=', 3, T_INT, T_BOOL),
+	('in', 3, 'container', T_BOOL), ('not in', 3, 'container', T_BOOL), ('is', 3, T_BOOL, T_BOOL), ('is not', 3, T_BOOL, T_BOOL),
+	('|', 4, T_INT, T_INT), ('^', 5, T_INT, T_INT), ('&', 6, T_INT, T_INT), ('<<', 7, T_INT, T_INT), ('>>', 7, T_INT, T_INT),
+	('+', 8, T_INT, T_INT), ('-', 8, T_INT, T_INT), ('*', 9, T_INT, T_INT), ('/', 9, T_FLOAT, T_FLOAT), ('%', 9, T_INT, T_INT)]
+UN = [('not', 2), ('+', 10), ('-', 10), ('~', 10)]
+LEVEL_OF = {tok: lv for tok, lv, _, _ in BIN}
+
+
+class OT:
+	"""operator tree of the stream generator: kind in atom un bin tern; `group` = written with parentheses"""
+
+	def __init__(self, kind: str, op: str = '', kids: list['OT'] | None = None, text: str = '', ty: str = T_INT) -> None:
+		self.kind, self.op, self.kids, self.text, self.ty, self.group = kind, op, kids or [], text, ty, False
+
+	def level(self) -> int:
+		if self.group or self.kind == 'atom':
+			return 11
+		if self.kind == 'tern':
+			return -1
+		if self.kind == 'un':
+			return 2 if self.op == 'not' else 10
+		return LEVEL_OF[self.op]
+
+	def src(self) -> str:
+		s = self._src()
+		return f'({s})' if self.group else s
+
+	def _src(self) -> str:
+		if self.kind == 'atom':
+			return self.text
+		if self.kind == 'un':
+			return ('not ' if self.op == 'not' else self.op) + self.kids[0].src()
+		if self.kind == 'tern':
+			return f'{self.kids[0].src()} if {self.kids[1].src()} else {self.kids[2].src()}'
+		return f'{self.kids[0].src()} {self.op} {self.kids[1].src()}'
+
+
+def ot_atom(rng: random.Random, ty: str) -> OT:
+	if ty == T_BOOL:
+		return OT('atom', text=rng.choice(['p', 'q', 'p', 'q', 'True', 'False']), ty=T_BOOL)
+	if ty == T_FLOAT:
+		return OT('atom', text=rng.choice(['x', 'y', 'x', 'y', '2.0', '0.5']), ty=T_FLOAT)
+	if ty == 'list':
+		return OT('atom', text='xs', ty='list')
+	if ty == 'dict':
+		return OT('atom', text='d', ty='dict')
+	return OT('atom', text=rng.choice(['a', 'b', 'c', 'a', 'b', 'c', '1', '2', '7', '10']), ty=T_INT)
+
+
+def ot_fix(parent_kind: str, parent_op: str, side: int, child: OT) -> OT:
+	"""put the parentheses Python's grammar needs so that the text parses back to this tree (never more, unless already set)"""
+	lv = child.level()
+	if parent_kind == 'bin':
+		plv = LEVEL_OF[parent_op]
+		need = plv if side == 0 else plv + 1
+		if plv == 3:
+			need = 4   # comparison operands are or_expr; a bare comparison child would extend the chain
+		if lv < need:
+			child.group = True
+	elif parent_kind == 'un':
+		if lv < (2 if parent_op == 'not' else 10):
+			child.group = True
+	elif parent_kind == 'tern':
+		if lv < (0 if side < 2 else -1):
+			child.group = True
+	return child
+
+
+def ot_gen(rng: random.Random, ty: str, depth: int, mixed: bool, swap_ok: bool = False) -> OT:
+	"""random well-typed operator tree. With `mixed`, an int may stand where and/or/not expect a bool and a bool as the right
+	operand of int arithmetic — the combinations the stub dunders of compatible/libralies/classes.py accept (type inference is
+	not part of this model; an `OperationNotAllowed` would only show the generator left tranp's typed subset)."""
+	want = ty
+	if mixed and swap_ok and ty in (T_INT, T_BOOL) and rng.random() < 0.3:
+		want = T_BOOL if ty == T_INT else T_INT
+	if depth <= 0 or rng.random() < 0.15:
+		return ot_atom(rng, want)
+	r = rng.random()
+	if r < 0.08:
+		t = OT('tern', kids=[ot_gen(rng, want, depth - 1, mixed), ot_gen(rng, T_BOOL, depth - 1, mixed), ot_gen(rng, want, depth - 1, mixed)], ty=want)
+		for i, k in enumerate(t.kids):
+			ot_fix('tern', '', i, k)
+		return ot_maybe_group(rng, t)
+	if want == T_FLOAT:
+		op = rng.choice(['+', '-', '*', '/', '%', '%', 'neg'])
+		if op == 'neg':
+			t = OT('un', '-', [ot_gen(rng, T_FLOAT, depth - 1, mixed)], ty=T_FLOAT)
+			ot_fix('un', '-', 0, t.kids[0])
+			return ot_maybe_group(rng, t)
+		l = ot_gen(rng, T_FLOAT if rng.random() < 0.7 else T_INT, depth - 1, mixed)
+		rr = ot_gen(rng, T_FLOAT if (l.ty != T_FLOAT or rng.random() < 0.6) else T_INT, depth - 1, mixed)
+		t = OT('bin', op, [l, rr], ty=T_FLOAT)
+	elif want == T_BOOL:
+		if r < 0.3:
+			t = OT('un', 'not', [ot_gen(rng, T_BOOL, depth - 1, mixed, True)], ty=T_BOOL)
+			ot_fix('un', 'not', 0, t.kids[0])
+			return ot_maybe_group(rng, t)
+		tok, _, oty, _ = rng.choice([b for b in BIN if b[3] == T_BOOL])
+		if oty == 'container':
+			cont = rng.choice(['list', 'dict'])
+			t = OT('bin', tok, [ot_gen(rng, T_INT, depth - 1, mixed), ot_atom(rng, cont)], ty=T_BOOL)
+		elif LEVEL_OF[tok] == 3 and tok not in ('is', 'is not') and rng.random() < 0.15:
+			t = OT('bin', tok, [ot_gen(rng, T_FLOAT, depth - 1, mixed), ot_gen(rng, T_FLOAT, depth - 1, mixed)], ty=T_BOOL)
+		else:
+			sw = tok in ('and', 'or')
+			t = OT('bin', tok, [ot_gen(rng, oty, depth - 1, mixed, sw), ot_gen(rng, oty, depth - 1, mixed, sw)], ty=T_BOOL)
+	else:
+		if r < 0.28:
+			op = rng.choice(['+', '-', '-', '~'])
+			t = OT('un', op, [ot_gen(rng, T_INT, depth - 1, mixed)], ty=T_INT)
+			ot_fix('un', op, 0, t.kids[0])
+			return ot_maybe_group(rng, t)
+		tok, _, oty, _ = rng.choice([b for b in BIN if b[3] == T_INT])
+		t = OT('bin', tok, [ot_gen(rng, T_INT, depth - 1, mixed), ot_gen(rng, T_INT, depth - 1, mixed, tok in ('+', '-', '*', '&', '|', '^', '%'))], ty=T_INT)
+	for i, k in enumerate(t.kids):
+		ot_fix('bin', t.op, i, k)
+	return ot_maybe_group(rng, t)
+
+
+def ot_maybe_group(rng: random.Random, t: OT) -> OT:
+	if rng.random() < 0.12:
+		t.group = True
+	return t
+
+
+def ot_child_for(rng: random.Random, op_or_un: tuple[str, str], ty_hint: str) -> OT:
+	"""a minimal tree whose head is the given operator"""
+	kind, op = op_or_un
+	if kind == 'un':
+		return OT('un', op, [ot_atom(rng, T_BOOL if op == 'not' else T_INT)], ty=T_BOOL if op == 'not' else T_INT)
+	tok, _, oty, rty = next(b for b in BIN if b[0] == op)
+	if oty == 'container':
+		return OT('bin', tok, [ot_atom(rng, T_INT), ot_atom(rng, rng.choice(['list', 'dict']))], ty=T_BOOL)
+	return OT('bin', tok, [ot_atom(rng, oty), ot_atom(rng, oty)], ty=rty)
+
+
+def forced_pairs(rng: random.Random) -> list[tuple[str, OT]]:
+	"""every ordered (parent operator, side, child operator) once: the child stands bare where Python's grammar allows it"""
+	heads = [('bin', b[0]) for b in BIN] + [('un', u[0]) for u in UN]
+	out: list[tuple[str, OT]] = []
+	for pk, pop in heads:
+		for ck, cop in heads:
+			sides = [0, 1] if pk == 'bin' else [0]
+			for side in sides:
+				child = ot_child_for(rng, (ck, cop), '')
+				if pk == 'un':
+					t = OT('un', pop, [child], ty=T_BOOL if pop == 'not' else T_INT)
+				else:
+					tok, _, oty, rty = next(b for b in BIN if b[0] == pop)
+					other = ot_atom(rng, rng.choice(['list', 'dict']) if oty == 'container' and side == 0 else (T_INT if oty == 'container' else oty))
+					if oty == 'container' and side == 1:
+						# the right operand of `in` must be a container: a bare operator child is not typable; keep the pair on the left only
+						continue
+					t = OT('bin', tok, [child, other] if side == 0 else [other, child], ty=rty)
+				ot_fix(pk, pop, side, child)
+				out.append((f'{pop}/{side}/{cop}' + ('(grouped)' if child.group else ''), t))
+	return out
+
+
+def cpython_grouping(expr_src: str) -> str:
+	"""Python's own grouping of the source text (CPython `ast`), printed like the driver's `pytree`: C++ symbols, binary,
+	comparison chains nested to the left, parentheses dropped."""
+	import ast as A
+	sym = {A.Add: '+', A.Sub: '-', A.Mult: '*', A.Div: '/', A.Mod: '%', A.LShift: '<<', A.RShift: '>>', A.BitOr: '|', A.BitXor: '^', A.BitAnd: '&',
+		A.Eq: '==', A.NotEq: '!=', A.Lt: '<', A.LtE: '<=', A.Gt: '>', A.GtE: '>=', A.Is: '==', A.IsNot: '!=', A.And: '&&', A.Or: '||',
+		A.Not: '!', A.USub: '-', A.UAdd: '+', A.Invert: '~'}
+
+	def go(n: A.expr) -> str:
+		if isinstance(n, A.Name):
+			return n.id
+		if isinstance(n, A.Constant):
+			return {True: 'true', False: 'false'}.get(n.value, None) if isinstance(n.value, bool) else A.get_source_segment(expr_src, n) or repr(n.value)
+		if isinstance(n, A.BoolOp):
+			acc = go(n.values[0])
+			for v in n.values[1:]:
+				acc = f'({acc} {sym[type(n.op)]} {go(v)})'
+			return acc
+		if isinstance(n, A.UnaryOp):
+			return f'({sym[type(n.op)]}{go(n.operand)})'
+		if isinstance(n, A.BinOp):
+			return f'({go(n.left)} {sym[type(n.op)]} {go(n.right)})'
+		if isinstance(n, A.Compare):
+			acc = go(n.left)
+			for o, c in zip(n.ops, n.comparators):
+				acc = f'({acc} {sym[type(o)]} {go(c)})'
+			return acc
+		raise ValueError(type(n).__name__)
+	return go(A.parse(expr_src, mode='eval').body)
+
+
+class RealNodes:
+	"""serialises the operator nodes the real tranp built for an expression into the driver's encoding"""
+
+	def __init__(self, tr: cxx.Transpiler) -> None:
+		import rogw.tranp.syntax.node.definition as defs
+		import rogw.tranp.semantics.reflection.definition as refs
+		from rogw.tranp.semantics.reflections import Reflections
+		self.defs, self.refs = defs, refs
+		self.tr = tr
+		self.reflections = tr.app.resolve(Reflections)
+		self.levels = {defs.OrCompare: 0, defs.AndCompare: 1, defs.Comparison: 3, defs.OrBitwise: 4, defs.XorBitwise: 5, defs.AndBitwise: 6,
+			defs.ShiftBitwise: 7, defs.Sum: 8, defs.Term: 9}
+		self.ids: dict[str, int] = {}
+
+	def ty(self, node: Any) -> tuple[str, bool]:
+		raw = self.reflections.type_of(node)
+		name = self.tr.py2cpp.to_domain_name(raw)
+		is_dict = raw.impl(self.refs.Object).type_is(dict)
+		return (name if name in ('int', 'float', 'double', 'bool') else 'other'), is_dict
+
+	def enc(self, node: Any) -> str:
+		defs = self.defs
+		if isinstance(node, defs.Group):
+			return 'g ' + self.enc(node.expression)
+		if isinstance(node, defs.Factor):
+			return 'f ' + {'+': 'pos', '-': 'neg', '~': 'inv'}[node.operator.tokens] + ' ' + self.enc(node.value)
+		if isinstance(node, defs.NotCompare):
+			return 'n ' + self.enc(node.value)
+		if isinstance(node, defs.TernaryOperator):
+			return f't {self.enc(node.primary)} {self.enc(node.condition)} {self.enc(node.secondary)}'
+		if isinstance(node, defs.BinaryOperator):
+			els = node.elements
+			out = [f'c {self.levels[type(node)]} {self.ty(els[0])[0]} {(len(els) - 1) // 2} {self.enc(els[0])}']
+			for i in range(1, len(els), 2):
+				t, is_dict = self.ty(els[i + 1])
+				out.append(f"{els[i].tokens} {1 if is_dict else 0} {t} {self.enc(els[i + 1])}")
+			return ' '.join(out)
+		text = self.tr.py2cpp.transpile(node)
+		return f'a {self.ids.setdefault(text, len(self.ids) + 1)} {hx(text)}'
+
+
+def emit_cases(tr: cxx.Transpiler, items: list[tuple[str, OT]]) -> list[tuple[dict[str, Any], list[str], list[str]]]:
+	"""one `def f(a, b, c, p, q, x, y, xs, d) -> T` per batch: `r<i> = <expr>` statements, the last expression is returned
+	(parsing the parameter list dominates the cost of a case, so the expressions of a batch share one function)"""
+	from translate.gen_cpp_templates import cpp_tokens
+	rtys = {T_INT: 'int', T_BOOL: 'bool', T_FLOAT: 'float'}
+	body = ''.join(f'\tr{i} = {t.src()}\n' for i, (_, t) in enumerate(items[:-1]))
+	source = f"def f({PARAMS}) -> {rtys.get(items[-1][1].ty, 'int')}:\n{body}\treturn {items[-1][1].src()}\n"
+	try:
+		module = tr.app.module(source)
+		text = tr.py2cpp.transpile(module.entrypoint)
+		fn = [n for n in module.entrypoint.statements if type(n).__name__ == 'Function'][0]
+		stmts = [s for s in fn.statements if type(s).__name__ in ('MoveAssign', 'Return')]
+		lines = [ln.strip() for ln in text.split('\n')]
+		rets = [ln.split(' = ', 1)[1] for ln in lines if re.match(r'[A-Za-z_:<>, ]+ r[0-9]+ = .*;$', ln)] + [ln[len('return '):] for ln in lines if ln.startswith('return ')]
+		if len(rets) != len(items) or len(stmts) != len(items):
+			raise ValueError(f'{len(rets)} statement lines / {len(stmts)} statement nodes for {len(items)} expressions')
+	except Exception as e:  # noqa: BLE001
+		if len(items) > 1:
+			return [c for it in items for c in emit_cases(tr, [it])]
+		# a rejection of a valid operator expression is a disagreement with the (total) model
+		return [({'pair': items[0][0], 'expr': items[0][1].src()}, ['emit\ta 0 -'], [f'real-code exception {common.exc_enum(e)}: {str(e)[:200]}'])]
+	out = []
+	for (name, t), ret, st in zip(items, rets, stmts):
+		desc = {'pair': name, 'expr': t.src()}
+		try:
+			real_text = ret[:-1] if ret.endswith(';') else f'<statement line without ;: {ret}>'
+			enc = RealNodes(tr).enc(st.return_value if type(st).__name__ == 'Return' else st.value)
+		except Exception as e:  # noqa: BLE001
+			out.append((desc, ['emit\ta 0 -'], [f'real-code exception {common.exc_enum(e)}: {str(e)[:200]}']))
+			continue
+		core = not _has(t, lambda n: n.kind == 'tern' or (n.kind == 'bin' and n.op in ('in', 'not in'))) and 'fmod(' not in real_text
+		desc.update(enc=enc, text=real_text, core=core)
+		ops = [f'emit\t{enc}', f'toks\t{enc}', f'wf\t{enc}', f'pytree\t{enc}']
+		real = ['ok ' + hx(real_text), 'ok ' + ' '.join(cpp_tokens(real_text)), 'true', ('ok ' + cpython_grouping(t.src())) if core else 'none']
+		out.append((desc, ops, real))
+	return out
+
+
+def _has(t: OT, pred: Any) -> bool:
+	return pred(t) or any(_has(k, pred) for k in t.kids)
+
+
+GROUPING_PRELUDE = r'''#include <iostream>
+#include <string>
+// every operator of the core is overloaded to print how the compiler grouped it: g++ is the oracle for the C++ grammar
+struct T { std::string s; };
+#define VF_B(op) inline T operator op(const T& a, const T& b) { return T{"(" + a.s + " " #op " " + b.s + ")"}; }
+VF_B(+) VF_B(-) VF_B(*) VF_B(/) VF_B(%) VF_B(<<) VF_B(>>) VF_B(&) VF_B(|) VF_B(^) VF_B(==) VF_B(!=) VF_B(<) VF_B(>) VF_B(<=) VF_B(>=) VF_B(&&) VF_B(||)
+#define VF_U(op) inline T operator op(const T& a) { return T{std::string("(") + #op + a.s + ")"}; }
+VF_U(!) VF_U(~) VF_U(-) VF_U(+)
+'''
+
+
+def stream_cpptable(ctx: Ctx, emit_cases_done: list[tuple[dict[str, Any], list[str], list[str]]]) -> Stream:
+	"""validates the trusted constant `cppTable`: g++ prints its own grouping of each emitted text (operators overloaded on a
+	string-building type) and the model's `Prec.parse cppOps` of the emitted tokens must print the same."""
+	import subprocess
+	from concurrent.futures import ThreadPoolExecutor
+	from translate.gen_cpp_templates import cpp_tokens
+	todo = [d for d, _, _ in emit_cases_done if d.get('core')]
+	todo = todo[:ctx.scale(500, 100000)]
+	work = ctx.tmpdir('tranp-verif-cpptable-')
+	chunks = [todo[i:i + 250] for i in range(0, len(todo), 250)]
+
+	def build(args: tuple[int, list[dict[str, Any]]]) -> list[str]:
+		n, chunk = args
+		lines = [GROUPING_PRELUDE, 'int main() {']
+		names: dict[str, str] = {}
+		body = []
+		fused = []
+		for d in chunk:
+			toks = cpp_tokens(d['text'])
+			fused.append('--' in toks or '++' in toks)
+			if fused[-1]:
+				continue
+			out = []
+			for tk in toks:
+				if re.fullmatch(r'[A-Za-z_][A-Za-z_0-9]*|[0-9][0-9a-zA-Z.]*', tk):
+					out.append(names.setdefault(tk, f'v{len(names)}'))
+				else:
+					out.append(tk)
+			body.append(f"\tstd::cout << ({' '.join(out)}).s << \"\\n\";")
+		lines.extend(f'\tT {v}{{"{k}"}};' for k, v in names.items())
+		lines.extend(body)
+		lines.append('\treturn 0;\n}')
+		src = os.path.join(work, f'g{n}.cpp')
+		with open(src, 'w', encoding='utf-8') as f:
+			f.write('\n'.join(lines) + '\n')
+		p = subprocess.run(['g++', '-std=c++20', '-O0', '-w', src, '-o', src[:-4]], capture_output=True, text=True, timeout=600)
+		if p.returncode != 0:
+			return [f'g++ rejects the emitted operator text: {p.stderr[-300:]}'.replace('\n', ' ')] * len(chunk)
+		outl = subprocess.run([src[:-4]], capture_output=True, text=True, timeout=60).stdout.split('\n')
+		res, k = [], 0
+		for fz in fused:
+			if fz:
+				res.append('none')
+			else:
+				res.append('ok ' + outl[k])
+				k += 1
+		return res
+
+	with ThreadPoolExecutor(8) as ex:
+		reals = [r for chunk_res in ex.map(build, list(enumerate(chunks))) for r in chunk_res]
+	cases = [({'expr': d['expr'], 'text': d['text']}, [f"reparse\t{d['enc']}"], [r]) for d, r in zip(todo, reals)]
+	st = common.correspond('cpptable', cases, 'emit', classify=lambda d: 'regrouped-or-flat')
+	st.note = 'g++ -std=c++20 prints its grouping of every emitted core text (operator overloading on a string type); the model prints Prec.parse cppOps (emit n)'
+	return st
+
+
+def stream_emit(ctx: Ctx) -> Stream:
+	rng = ctx.sub_rng('emit')
+	tr = cxx.Transpiler(ctx.tmpdir())
+	forced = forced_pairs(rng)
+	items = list(forced)
+	depth = ctx.scale(6, 10)
+	for i in range(ctx.scale(300, 3000)):
+		items.append(('random', ot_gen(rng, rng.choice([T_INT, T_INT, T_BOOL, T_BOOL, T_FLOAT]), 1 + i % depth, mixed=i % 4 == 3)))
+	cases = []
+	for i in range(0, len(items), 40):
+		cases.extend(emit_cases(tr, items[i:i + 40]))
+	st = common.correspond('emit', cases, 'emit', classify=lambda d: 'forced-pair' if d['pair'] != 'random' else 'random')
+	st.raw_cases = cases  # type: ignore[attr-defined]
+	st.histogram['forced_pairs'] = len(forced)
+	st.histogram['forced_pairs_bare'] = sum(1 for n, _ in forced if not n.endswith('(grouped)'))
+	st.note = ('`def f(a, b, c: int, p, q: bool, x, y: float, xs: list[int], d: dict[int, int]) -> T: return <expr>` through the real App/Py2Cpp; '
+		'the operator nodes tranp built are serialised (types from Reflections.type_of/to_domain_name, leaf text from the leaf handlers) and the model must '
+		'reproduce the exact `return` text (emit), its C++ tokens (toks), accept the tree as grammar-producible (wf) and give CPython\'s grouping (pytree, vs `ast`)')
+	return st
+
+
+# ---------------------------------------------------------------------------------------------
 
 
 STATEMENTS: dict[str, str] = {}
